@@ -475,6 +475,33 @@ func genC14Plan(r *zsim.Rng) *sysPlan {
 		p.Events = append(p.Events[:at:at], append(seq, p.Events[at:]...)...)
 		c14DropArg(p, "--no-mouse")
 	}
+	// Targeted mode: the mouse button goes down inside the preview window, a key closes the window, the mouse
+	// is dragged on
+	if r.Chance(1, 15) {
+		for _, o := range []string{"--border", "--padding", "--height", "--preview", "--preview-window", "--margin", "--no-mouse"} {
+			c14DropOpt(p, o)
+		}
+		c14DropArg(p, "--no-mouse")
+		p.Args = append(p.Args, "--preview", "PV {}", "--preview-window", pick(r, "right", "left", "up", "down"))
+		long := ""
+		for k := 1; k <= 80; k++ {
+			long += fmt.Sprintf("line %d\n", k)
+		}
+		p.Procs = []procSpec{{Text: long}} // more than the window shows: the pane can be scrolled
+		x, y := r.Range(1, p.Cols), r.Range(1, p.Rows)
+		seq := []sysEvent{{Kind: "settle"}}
+		for i := r.Range(1, 4); i > 0; i-- {
+			x, y = r.Range(1, p.Cols), r.Range(1, p.Rows)
+			seq = append(seq, sysEvent{Kind: "raw", Raw: []byte(fmt.Sprintf("\x1b[<0;%d;%dM", x, y)), DelayMs: r.Intn(30)})
+			seq = append(seq, sysEvent{Kind: "keys", Keys: pick(r, "alt-f", "alt-f", "alt-g", "f7"), DelayMs: r.Intn(10)})
+			for k := r.Range(1, 4); k > 0; k-- {
+				y = clampInt(y+r.Range(-3, 3), 1, p.Rows)
+				seq = append(seq, sysEvent{Kind: "raw", Raw: []byte(fmt.Sprintf("\x1b[<32;%d;%dM", x, y)), DelayMs: r.Intn(10)})
+			}
+			seq = append(seq, sysEvent{Kind: "raw", Raw: []byte(fmt.Sprintf("\x1b[<0;%d;%dm", x, y))}, sysEvent{Kind: "keys", Keys: "alt-f"})
+		}
+		p.Events = append(seq, p.Events...)
+	}
 	// Targeted mode: commands whose template needs the current line, run when there is none (empty input or
 	// a query nothing matches), then a signal from outside: whatever state the skipped command left behind
 	// must not make fzf deaf.
